@@ -10,8 +10,9 @@ NAME=$1; PID=$2; PATCH=$3; TIER=${4:-quick}
 ROOT=/tmp/rehearse-$NAME
 mkdir -p $ROOT/repo $ROOT/verif
 # files restored by rsync keep their OLD mtime, which cargo's freshness check would miss: touch them
-rsync -a --delete --exclude target --exclude .git --out-format='%n' /repo/ $ROOT/repo/ | while read f; do
-  [ -f "$ROOT/repo/$f" ] && touch "$ROOT/repo/$f"; done
+# (after rsync has finished -- it sets the old mtime when it finalises each file)
+rsync -a --delete --exclude target --exclude .git --out-format='%n' /repo/ $ROOT/repo/ > $ROOT/.restored
+while read f; do [ -f "$ROOT/repo/$f" ] && touch "$ROOT/repo/$f"; done < $ROOT/.restored
 rsync -a --delete --exclude harness/target --exclude work --exclude replays --exclude evidence --exclude .git /verif/ $ROOT/verif/
 if [ "$PATCH" != "-" ]; then
   (cd $ROOT/repo && patch -p1 --no-backup-if-mismatch < "$PATCH") || { echo "patch failed"; exit 3; }
